@@ -1,5 +1,6 @@
 """C07 — GIR files survive a read/write cycle unchanged (attribute/element level)."""
 import ast
+import re
 
 from ..core import AnalysisError
 from .. import pyfront as P
@@ -262,7 +263,7 @@ def check(ctx):
         if key in seen_sites:
             continue
         seen_sites.add(key)
-        it = s['raw_iter']
+        it = norm_iter(s['raw_iter'])
         if it.startswith('sorted('):
             r4.ok('%s: %s' % key, wm.rel, s['line'], detail='sorted')
             continue
@@ -307,3 +308,17 @@ def check(ctx):
         r6.check(attr in fresh, 'self.%s reset per file' % attr, rm.rel, pm['parse_tree'].lineno,
                  'GIRParser.%s is filled by %s but not re-initialised in parse_tree(): a parser used for a second file returns a namespace that still carries the includes / packages / '
                  'settings of the first (and mutates the first one through the shared object)' % (attr, sorted(where)), detail=sorted(where))
+
+
+def norm_iter(it):
+    """`x.fields or []`, `list(x.fields)`, `tuple(x.fields or ())` iterate x.fields in its own order"""
+    prev = None
+    while prev != it:
+        prev = it
+        it = re.sub(r'\s+or\s+(\[\]|\(\)|list\(\)|tuple\(\))$', '', it.strip())
+        m_ = re.match(r'^(?:list|tuple|iter)\((.*)\)$', it)
+        if m_ and m_.group(1).count('(') == m_.group(1).count(')'):
+            it = m_.group(1)
+        if it.startswith('(') and it.endswith(')') and it[1:-1].count('(') == it[1:-1].count(')') and ',' not in it:
+            it = it[1:-1]
+    return it
